@@ -163,6 +163,13 @@ def run_case(case, ctx):
         if nodes and rng.random() < 0.15:
             nodes, hops = nodes + [z], hops + [rng.choice(['STRICT', 'LOOSE'])]
             kind += '+dst'
+        if rng.random() < 0.12:
+            # a LOOSE entry that names nothing usable (a typo, or another transceiver): it is skipped with a warning
+            # and the other entries keep their meaning
+            k = rng.randint(0, len(nodes))
+            bad = rng.choice(['no such element', rng.choice([t for t in trx if t not in (a, z)] or ['nowhere'])])
+            nodes, hops = nodes[:k] + [bad] + nodes[k:], hops[:k] + ['LOOSE'] + hops[k:]
+            kind += '+unusable-loose'
         bidir = rng.random() < 0.4
         reqs.append(S.request(i, a, z, nodes=nodes, hops=hops, bidir=bidir, trx_mode='mode 1'))
         meta[str(i)] = {'src': a, 'dst': z, 'nodes': nodes, 'hops': hops, 'kind': kind, 'bidir': bidir}
@@ -174,6 +181,11 @@ def run_case(case, ctx):
     for rq, path in zip(rqs, paths):
         m = meta[rq.request_id]
         src, dst, includes, hops = m['src'], m['dst'], m['nodes'], m['hops']
+        usable = set(model.nodes) - set(model.roadm_of)
+        if any(u not in usable and u not in (src, dst) for u in includes):
+            keep = [i for i, u in enumerate(includes) if u in usable or u in (src, dst)]
+            includes, hops = [includes[i] for i in keep], [hops[i] for i in keep]
+            ctx.count('unusable_loose_entries')
         if includes and (includes[0] == src or includes[-1] == dst):
             # the end points are on every path: only the other entries (with their own hop types) are constraints
             keep = [i for i, u in enumerate(includes) if not ((i == 0 and u == src) or (i == len(includes) - 1 and u == dst))]
